@@ -44,6 +44,11 @@ class Gen:
         self.epoch_views: set[int] = set()
         self.readonly: set[int] = set()
         self.scopes: list = []
+        self.last_L = None
+        # views carried over from an earlier epoch (graph cleared, base lingering until their next use as an operand).  They are
+        # never the TERMINAL of a backward(): MyGrad stores the seed on such a tensor but `.grad` - which, for a tensor with a
+        # base, is derived from the base - does not show it (observed; DESIGN 7.2)
+        self.disconnected: set[int] = set()
         self.stale: set[int] = set()  # views kept across an epoch boundary: observed (and null_grad-ed) but never used again
         self.lowprec = False  # a float16/32 tensor exists: avoid divisions (their gradients are inexact in low precision)
         self.unguarded: set[int] = set()  # operands/results of ops recorded while the memory guard was off
@@ -102,6 +107,11 @@ class Gen:
             s["fail"] = True
             del self.np.H[s["h"]]
             self.prog.append(s)
+            return False
+        if (s["k"] == "op" and view and self.np.H[s["h"]].size == 0
+                and any(o.get("h") in self.disconnected for o in s["a"])):
+            # an EMPTY view of a disconnected view: MyGrad cannot tell it is a view (no memory to share) - outside the domain
+            del self.np.H[s["h"]]
             return False
         self.prog.append(s)
         if s["k"] == "op" and self.tracking() and not self.guard_on():
@@ -794,6 +804,9 @@ class Gen:
                 s["seed_kind"] = kind
             if "arr" in seed and len(seed["arr"]["sh"]) >= 2 and kind is None and self.rng.random() < 0.35:
                 s["seed_order"] = "F"      # the caller's gradient array is Fortran-ordered (the specification does not care)
+            elif "arr" in seed and kind is None and self.rng.random() < self.p.get("p_seed_view", 0.0):
+                # the caller's gradient arrays are slices of ONE buffer the caller owns (the specification does not care)
+                s["seed_view"] = True
         self.prog.append(s)
 
     def rand_seed(self, sh, bad=False):
@@ -974,6 +987,7 @@ class Gen:
                         # former family are independent leaves over one memory, for which "the derivative with respect
                         # to the tensor's value" has no reading at the reference level.
                         reused = h
+                        self.disconnected.add(h)
                         continue
                     self.stale.add(h)
                     if self.rng.random() < 0.5:
@@ -1048,8 +1062,10 @@ def gen_program(seed: int, profile: dict) -> list[dict]:
             nterm = rng.randint(1, profile.get("max_terminals", 1))
             Ls = []
             for _ in range(nterm):
-                if rng.random() < profile.get("p_nonscalar_L", 0.0):
-                    L = g.pick(lambda h: not g.const[h] and g.arr(h).size > 0)
+                if g.last_L in g.np.H and not g.isview.get(g.last_L) and rng.random() < profile.get("p_repeat_L", 0.0):
+                    L = g.last_L             # the terminal of the previous epoch once more
+                elif rng.random() < profile.get("p_nonscalar_L", 0.0):
+                    L = g.pick(lambda h: not g.const[h] and g.arr(h).size > 0 and h not in g.disconnected and h not in g.stale)
                 else:
                     L = g.terminal()
                 if L is not None:
@@ -1074,6 +1090,7 @@ def gen_program(seed: int, profile: dict) -> list[dict]:
                     g.prog.append({"k": "clear", "h": L})
                 else:
                     g.backward(L, seed, kind)
+                    g.last_L = L
                 g.end_epoch_drop_views()
                 if profile.get("editgrad") and rng.random() < 0.6:
                     t = g.pick(lambda h: g.arr(h).size > 0)
@@ -1104,7 +1121,8 @@ PROFILES = {
     "c05": dict(p_forder_leaf=0.25, functional=["bin", "bin", "un", "red", "matmul", "gathercopy"], w_func=0.35, w_view=0.3, w_inplace=0.35,
                 max_leaves=2, max_steps=8, p_const_leaf=0.15, w_misc=0.08, misc=["fail"]),
     "c06": dict(p_forder_leaf=0.25, functional=["bin", "un", "red"], w_func=0.4, w_view=0.6, w_inplace=0.0, max_leaves=2, max_steps=7,
-                p_const_leaf=0.0, w_misc=0.08, misc=["copy"], max_epochs=3, p_keep_stale=0.5, p_reuse_stale=0.7),
+                p_const_leaf=0.0, w_misc=0.08, misc=["copy"], max_epochs=3, p_keep_stale=0.5, p_reuse_stale=0.7,
+                p_seed=0.45, p_nonscalar_L=0.4, p_repeat_L=0.5, p_seed_view=0.6),
     "c09": dict(functional=["bin", "bin", "un", "red", "matmul"], w_func=0.5, w_view=0.25, w_inplace=0.25, max_leaves=2,
                 max_steps=5, max_epochs=2, max_terminals=3, between_steps=3, p_const_leaf=0.15, w_misc=0.1,
                 misc=["clear", "nullgrad"], p_clear_instead=0.2, inplace=["setitem", "setitem", "aug", "uout", "setshape"]),
